@@ -6,12 +6,14 @@
 (b) driver family 'multihome': random interface histories (address added / removed / moved, interface down / up /
     gone, one family vanishing) interleaved with selections, registrations with automatic and explicit addresses,
     a browse against responders on every link and peers asking on every interface;
-both judged by the trace monitor TraceIface.tla (implementation -> spec)."""
+both judged by the trace monitor TraceIface.tla (implementation -> spec);
+(c) component level: what remove_records_on_intf / remove_addrs_on_disabled_intf drop and report, replayed through
+    Cache.tla (DropIntf, DropAddrs) by TraceCache.tla over the random cache family (clause C18.cache-purge)."""
 import json
 import os
 import re
 
-from . import core, daemon
+from . import cachemech, core, daemon
 
 PROP = "C18"
 PREFIXES = ["C18."]
@@ -25,7 +27,7 @@ ASSUME = [
     "datagrams are only delivered on interfaces that the host's table has (up, with an address of that family), also when the daemon has them disabled",
     "no TTL expires within a scenario (PTR 4500 s, others 120 s, scenarios < 60 s): a removal can only come from an interface change",
 ]
-NEED = ["C18.egress", "C18.where", "C18.addrs", "C18.browse", "C18.family", "C18.ignored", "C18.follow", "C18.purge", "C18.window"]
+NEED = ["C18.cache-removed", "C18.cache-modified", "C18.cache-dropaddrs-hit", "C18.egress", "C18.where", "C18.addrs", "C18.browse", "C18.family", "C18.ignored", "C18.follow", "C18.purge", "C18.window"]
 
 
 def _cases():
@@ -75,6 +77,11 @@ def run(tier, seed, t0):
     total += tot
     hits |= h
     all_files += files
+    # (c) the cache operations behind "everything learned on it is dropped", on the component
+    x = cachemech.light(PROP, PREFIXES, v, tier, seed)
+    total += x["total"]
+    hits |= x["hits"]
+    all_files += x["files"]
     nscen, nsig = daemon.count_scenarios(all_files)
     vac = [x for x in NEED if x not in hits]
     for x in vac:
@@ -83,7 +90,7 @@ def run(tier, seed, t0):
         "states": sum(x.get("distinct", 0) for x in mcs),
         "transitions": sum(x.get("generated", 0) for x in mcs),
         "traces_validated_against_impl": nscen,
-        "samples": daemon.samples_from(all_files[-2:]),
+        "samples": daemon.samples_from(all_files[-6:-4]),
         "evaluations": total,
         "distinct_nontrivial": nsig,
         "rule": "(a) MCIface: 47 topologies (lo / eth0 / wlan0, each absent or with IPv4, IPv6 or both) x all sequences of <= 2 (thorough: <= 3) selections over "
@@ -91,7 +98,7 @@ def run(tier, seed, t0):
                 "every %s case is replayed on a real daemon (selections made on the full table, or while all but the first interface are still missing), then a "
                 "browse shows where the daemon sends. (b) family 'multihome': one to three interfaces, 1-6 table changes / selections at random instants (some "
                 "before the daemon could notice the previous one), one service with automatic and one with explicit addresses, responders on every link, peers "
-                "querying on every interface every 1-2 s. evaluations = trace events validated by TLC; distinct_nontrivial = distinct call/delivery signatures."
+                "querying on every interface every 1-2 s. (c) family 'cacherand' (see C11): random cache operations including the removal of an interface and of an IP version of an interface. evaluations = trace events validated by TLC; distinct_nontrivial = distinct call/delivery signatures."
                 % (ncases, "3rd" if thorough else "40th"),
         "clause_tags_exercised": sorted(hits),
         "vacuous_tags": vac,
@@ -112,6 +119,8 @@ def replay(path, seed):
     a = c["args"]
     sid = c["scenario"]["id"]
     out = os.path.join(core.workdir("c18"), "replay.ndjson")
+    if a["family"] in ("cachecases", "cacherand"):
+        return cachemech.replay(PROP, PREFIXES, c, v)
     if a["family"] == "ifcases":
         _, cases, _ = _cases()
         core.harness(["ifcases", "--cases", cases, "--from", sid, "--to", sid, "--out", out, "--seed", a["seed"]])
